@@ -13,7 +13,7 @@ def parseOutcome (kind : String) (tok0 : String) : Outcome :=
   | ["silent"] => .silent
   | ["drop"] => .connLost
   | ["rt", a, b, d] => .readTimeout (a.toInt?.getD 0) (b.toInt?.getD 0) (d == "1")
-  | ["wt", t] => .writeTimeout (match t with
+  | ["wt", t] | ["wt", t, _, _] => .writeTimeout (match t with
       | "SIMPLE" => "WriteTypeSimple" | "BATCH" => "WriteTypeBatch" | "UNLOGGED_BATCH" => "WriteTypeUnloggedBatch"
       | "COUNTER" => "WriteTypeCounter" | "BATCH_LOG" => "WriteTypeBatchLog" | "CAS" => "WriteTypeCas"
       | "VIEW" => "WriteTypeView" | "CDC" => "WriteTypeCdc" | o => o)
